@@ -489,12 +489,26 @@ Definition guard_interpolation_2d_table (data : list (list T)) : res unit :=
     guard_interpolation_2d x y (rect (zlen x) (zlen y)).
 
 (** *** Unit arguments and several requests on one object
-    Interpolation(arg_values, func_values, x_dim, f_dim): the table is validated as given, then
-    `if(x_dim > 0.0) x_values[i] *= x_dim` (the default -1 leaves it as it is), and
+    Interpolation(arg_values, func_values, x_dim, f_dim): the two size tests on the lists as given, then
+    `if(x_dim > 0.0) x_values[i] *= x_dim` (the default -1 leaves it as it is), then the strict-increase test on the
+    CONVERTED abscissae (the conversion can round two neighbours onto one double or carry the last ones to infinity), and
     `domain = {x_values[0], x_values[N - 1]}` is taken from the converted abscissae; every later request is
     judged against the converted table. *)
 Definition scale_units (dim : T) (l : list T) : list T :=
   if ngtb Ops dim zero then map (fun v => (v * dim)%num) l else l.
+Definition guard_interpolation_units (xs : list T) (nf : Z) (x_dim : T) : res unit :=
+  let N := zlen xs in
+  if negb (N =? nf) then Exit
+  else if N <? 2 then Exit
+  else
+    let xs' := scale_units x_dim xs in
+    for_range 1 N (fun i => let* a := getZ xs' i in let* b := getZ xs' (i - 1) in exit_if (nleb Ops a b)) ;;
+    at_ N 0 ;; at_ N (u32 (N - 1)) ;; steffen_indices N.
+(** Interpolation(data, x_dim, f_dim): every row must hold exactly two numbers, then the constructor above *)
+Definition guard_interpolation_table_units (data : list (list T)) (x_dim : T) : res unit :=
+  for_range 0 (zlen data) (fun i => let* row := getZ data i in
+     if negb (zlen row =? 2) then Exit else at_ (zlen row) 0 ;; at_ (zlen row) 1) ;;
+  guard_interpolation_units (map (fun row => nth 0 row zero) data) (zlen data) x_dim.
 Definition interp_domain (xs : list T) : res (T * T) :=
   let* a := getZ xs 0 in let* b := getZ xs (u32 (zlen xs - 1)) in Ok (a, b).
 (** the requests of one object, in the order in which they are made.  Derivative(x, n) calls Locate(x) (and
@@ -543,12 +557,12 @@ Definition table_session_locs (data : list (list T)) (x_dim : T) (cs : list ical
   icalls_locs (scale_units x_dim (map (fun row => nth 0 row zero) data)) cs.
 (** construction with unit arguments, then the requests; returns `domain` *)
 Definition interp_session (xs : list T) (nf : Z) (x_dim f_dim : T) (cs : list icall) : res (T * T) :=
-  guard_interpolation xs nf ;;
+  guard_interpolation_units xs nf x_dim ;;
   let xs' := scale_units x_dim xs in
   let* d := interp_domain xs' in
   guard_icalls xs' cs ;; Ok d.
 Definition interp_table_session (data : list (list T)) (x_dim f_dim : T) (cs : list icall) : res (T * T) :=
-  guard_interpolation_table data ;;
+  guard_interpolation_table_units data x_dim ;;
   let xs' := scale_units x_dim (map (fun row => nth 0 row zero) data) in
   let* d := interp_domain xs' in
   guard_icalls xs' cs ;; Ok d.
